@@ -5,6 +5,7 @@ package c08
 
 import (
 	"database/sql"
+	"os"
 
 	"fmt"
 	_ "github.com/alicebob/sqlittle/driver"
@@ -37,6 +38,10 @@ type spec struct {
 	// BigCatalog: the file starts with sixty more tables, so that
 	// sqlite_master spans several pages
 	BigCatalog bool `json:",omitempty"`
+	// Legacy (2 or 3): the file starts in that older schema format, in which
+	// DESC in an index is ignored (the index is stored ascending); a VACUUM
+	// rebuilds it as format 4, the same indexes descending
+	Legacy int `json:",omitempty"`
 }
 
 var writeKinds = []string{"insert", "insert", "update", "delete", "bulk", "bulk-big", "create-table", "drop-table", "create-index", "drop-index", "alter", "vacuum", "incr-vacuum", "delete-all", "update-grow", "vacuum-pagesize", "open-mid-transaction", "open-mid-transaction", "refused-read", "refused-read", "short-tail", "short-tail", "redefine-index", "redefine-index"}
@@ -55,6 +60,15 @@ func TestC08History(t *testing.T) {
 		Gen: func(t *rapid.T) spec {
 			s := spec{PageSize: rapid.SampledFrom([]int{512, 512, 1024, 4096}).Draw(t, "ps"), AutoVacuum: rapid.SampledFrom([]int{0, 0, 1, 2}).Draw(t, "av")}
 			s.BigCatalog = rapid.IntRange(0, 3).Draw(t, "bigcatalog") == 0
+			s.Legacy = rapid.SampledFrom([]int{0, 0, 0, 0, 3, 2}).Draw(t, "legacy")
+			if s.Legacy != 0 && rapid.Bool().Draw(t, "legacyscript") {
+				// the history the older format is there for: a DESC index made
+				// while DESC does not count, read through, then the VACUUM that
+				// turns the file into format 4 and the index around, and the
+				// same read again
+				k := rapid.IntRange(0, 1000).Draw(t, "lk")
+				s.Ops = append(s.Ops, op{"bulk", 0, k}, op{"create-index", 0, 0}, op{"redefine-index", 0, 0}, op{"indexed-eq", 0, k}, op{"vacuum", 0, 0}, op{"indexed-eq", 0, k + 1}, op{"indexed", 0, 0})
+			}
 			n := rapid.IntRange(2, 24).Draw(t, "nops")
 			for i := 0; i < n; i++ {
 				var k string
@@ -123,8 +137,29 @@ func run(r *vt.Run, t vt.TB, s spec) {
 		}
 		init = append(init, oracle.Stmt{SQL: "INSERT INTO filler_07 (c) VALUES ('seven')"}, oracle.Stmt{SQL: "INSERT INTO filler_41 (c) VALUES ('forty-one')"})
 	}
-	res, err := env.Create("w", path, s.PageSize, s.AutoVacuum, init)
+	var res []oracle.StmtResult
+	var err error
+	if s.Legacy != 0 {
+		res, err = env.CreateLegacy("w", path, s.PageSize, s.AutoVacuum, s.Legacy, init)
+	} else {
+		res, err = env.Create("w", path, s.PageSize, s.AutoVacuum, init)
+	}
 	sqdb.MustOK(r, t, "create", res, err, len(init)+2)
+	// what follows the column in an index definition, as the file's schema
+	// format lets it count now
+	effDef := func(def string) string {
+		if def == "DESC" {
+			if f, err := os.Open(path); err == nil {
+				var h [48]byte
+				f.ReadAt(h[:], 0)
+				f.Close()
+				if h[47] < 4 {
+					return ""
+				}
+			}
+		}
+		return def
+	}
 	defer env.O.Close("w")
 	tables := []*tableModel{t0}
 	nextTable, nextIndex := 1, 0
@@ -423,6 +458,14 @@ func run(r *vt.Run, t vt.TB, s spec) {
 					tm.idxDef = map[string]string{}
 				}
 				tm.idxDef[name] = def
+				// (the recreated index is the last object of the catalogue now)
+				var keep []string
+				for _, x := range tm.indexes {
+					if x != name {
+						keep = append(keep, x)
+					}
+				}
+				tm.indexes = append(keep, name)
 				history = append(history, fmt.Sprintf("redefine-index:%s(%s)", name, def))
 				note("ddl")
 				classes["index-redefined-under-its-name"] = true
@@ -707,7 +750,7 @@ func run(r *vt.Run, t vt.TB, s spec) {
 						return "", true
 					}
 					ix := tmc.indexes[b%len(tmc.indexes)]
-					ob := tmc.baseCols()[1] + " " + tmc.idxDef[ix] + ", " + tmc.orderBy()
+					ob := tmc.baseCols()[1] + " " + effDef(tmc.idxDef[ix]) + ", " + tmc.orderBy()
 					want := query(fmt.Sprintf("SELECT %s FROM %s ORDER BY %s", sel, tmc.name, ob))
 					var got [][]interface{}
 					err := hi.IndexedSelect(tmc.name, ix, func(row sqlittle.Row) { got = append(got, append([]interface{}{}, row...)) }, cols...)
@@ -733,8 +776,10 @@ func run(r *vt.Run, t vt.TB, s spec) {
 						if tmc.idxDef[ix] == "COLLATE NOCASE" {
 							coll = "NOCASE"
 						}
-						ob := col + " " + tmc.idxDef[ix] + ", " + tmc.orderBy()
-						want := query(fmt.Sprintf("SELECT %s FROM %s WHERE +%s = ?1 COLLATE %s AND typeof(%s) = typeof(?1) ORDER BY %s", sel, tmc.name, col, coll, col, ob), key)
+						ob := col + " " + effDef(tmc.idxDef[ix]) + ", " + tmc.orderBy()
+						// (text travels to the oracle as a blob parameter and is cast back)
+						kp := sqdb.TextParam(key)
+						want := query(fmt.Sprintf("SELECT %s FROM %s WHERE +%s = %s COLLATE %s AND typeof(%s) = typeof(%s) ORDER BY %s", sel, tmc.name, col, kp, coll, col, kp, ob), key, key)
 						var got [][]interface{}
 						err := hi.IndexedSelectEq(tmc.name, ix, sqlittle.Key{key.Go()}, func(row sqlittle.Row) { got = append(got, append([]interface{}{}, row...)) }, cols...)
 						return fmt.Sprint(got), cmpRows(fmt.Sprintf("IndexedSelectEq(%s,%s [%s],%s)", tmc.name, ix, tmc.idxDef[ix], key), got, err, want)
@@ -905,7 +950,7 @@ func run(r *vt.Run, t vt.TB, s spec) {
 		}
 	}
 	pages := int(query("PRAGMA page_count")[0][0].I)
-	cls := []string{fmt.Sprintf("ps=%d", s.PageSize), fmt.Sprintf("autovacuum=%d", s.AutoVacuum)}
+	cls := []string{fmt.Sprintf("ps=%d", s.PageSize), fmt.Sprintf("autovacuum=%d", s.AutoVacuum), fmt.Sprintf("starts-in-schema-format=%d", map[int]int{0: 4, 2: 2, 3: 3}[s.Legacy])}
 	for c := range classes {
 		cls = append(cls, c)
 	}
